@@ -320,6 +320,8 @@ def r149(repo, ctx):
     for i, st in enumerate(body):
         if not isinstance(st, ast.If) or st.orelse:
             continue
+        if not any(isinstance(n_, ast.Attribute) and n_.attr == 'maxRatio' for n_ in ast.walk(st.test)):
+            continue            # another validation of the inputs
         test, positive = st.test, True
         while isinstance(test, ast.UnaryOp) and isinstance(test.op, ast.Not):
             test, positive = test.operand, not positive
